@@ -480,7 +480,7 @@ func runScript(seed uint64, idx int, mix string, nev int, kinds map[string]int) 
 	bigRcv := false
 	if mix == "c04" && !wrapOnly && r.Intn(10) == 0 {
 		// a receive buffer that needs window scaling and can still be filled within one script
-		cfg.RcvBuf = []int{65536, 65537, 70001, 131072, 140000}[r.Intn(5)]
+		cfg.RcvBuf = []int{65536, 65537, 70001, 131072}[r.Intn(4)]
 		cfg.PeerWS = r.Intn(3)
 		bigRcv = true
 	}
@@ -554,6 +554,9 @@ func runScript(seed uint64, idx int, mix string, nev int, kinds map[string]int) 
 		w0 = 65535
 	}
 	s.advWnd = uint16(w0)
+	if bigRcv && nev > 26 {
+		nev = 26 // these traces carry 64+ KiB of queued data in every snapshot
+	}
 	for i := 0; i < nev; i++ {
 		if !s.event() {
 			break
